@@ -127,10 +127,27 @@ func c12RaceGen(o *out, r *rng, tier string) {
 	}
 	var requests, bad atomic.Int64
 	var firstBad atomic.Value
-	for h := 0; h < n; h++ {
+	// the HTTP requests of the streams: every target, or (churn histories) only those without a path variable
+	var static []c11Target
+	for _, t := range e.targets {
+		if !strings.Contains(t.url, "/7") {
+			static = append(static, t)
+		}
+	}
+	churn := [][]string{{"R0.2", "D0"}, {"R1.3", "D1"}, {"R2.4", "D2"}, {"R0.1", "R1.1", "D0", "D1"}, {"R2.5", "D2", "R2.8", "D2"}, {"L0.1", "R0.2", "D0"}}
+	for h := 0; h < n+len(churn); h++ {
 		ops := make([]string, 4+r.intn(9))
 		for j := range ops {
 			ops[j] = c11Alphabet[r.intn(len(c11Alphabet))]
+		}
+		targets := e.targets
+		if h >= n {
+			// churn: the same services registered and dropped again and again while the streams ask for their fixed paths
+			ops = nil
+			for i := 0; i < 6; i++ {
+				ops = append(ops, churn[h-n]...)
+			}
+			targets = static
 		}
 		m, ref := e.newMux(), e.newMux()
 		stop := make(chan struct{})
@@ -148,10 +165,10 @@ func c12RaceGen(o *out, r *rng, tier string) {
 					}
 					var ans string
 					gate.RLock()
-					if k%2 == 0 {
+					if k%2 == 0 && h < n {
 						ans = c11GRPC(m, c11FullName(c11Methods[k%len(c11Methods)]))
 					} else {
-						ans = c11HTTPWith(m, e.targets[k%len(e.targets)], c12Upgrade)
+						ans = c11HTTPWith(m, targets[k%len(targets)], c12Upgrade)
 					}
 					gate.RUnlock()
 					requests.Add(1)
@@ -198,7 +215,7 @@ func c12RaceGen(o *out, r *rng, tier string) {
 		wg.Wait()
 	}
 	fb, _ := firstBad.Load().(string)
-	fmt.Fprintf(os.Stdout, "C12R histories=%d requests=%d bad=%d first=%q\n", n, requests.Load(), bad.Load(), fb)
+	fmt.Fprintf(os.Stdout, "C12R histories=%d requests=%d bad=%d first=%q\n", n+len(churn), requests.Load(), bad.Load(), fb)
 	o.emit(fmt.Sprintf("C12R %d", n), fmt.Sprintf("%d %d", requests.Load(), bad.Load()))
 }
 
